@@ -19,7 +19,8 @@ Theorem C17_all_sites_discharged : forall s, In s gen_sites ->
 Proof. exact all_sites_discharged. Qed.
 Print Assumptions C17_all_sites_discharged.
 
-(* no wall clock, no math/rand, no goroutine, no select, no maps.Keys anywhere in x, app, ante, types *)
+(* no wall clock, no math/rand, no goroutine, no select, no maps.Keys, no stack traces (runtime/debug,
+   runtime.Stack/Caller) and no address formatting (%p, chan/func/raw pointers) anywhere in x, app, ante, types *)
 Theorem C17_no_clock_rand_concurrency :
   forallb (fun s => negb (banned_kind (s_kind s))) gen_sites = true.
 Proof. exact no_banned_sites. Qed.
